@@ -44,17 +44,23 @@ Proof. exact (recv_v1_no_silent digest H deq deq_spec decode1). Qed.
 
 (* sender: success only after matching per-frame acks, a final ack with step = size and an
    echoed digest equal to its own *)
-Theorem C02_sender_sound : forall sent as_ size mine,
+Theorem C02_sender_sound : forall as_ sent size mine,
   send_v2 digest deq size mine sent as_ = true ->
-  exists facks rest, as_ = facks ++ rest /\ length facks = length sent
-    /\ Forall2 (fun a n => exists s, a = AFrame digest n s) facks sent
+  exists facks rest, as_ = facks ++ rest
+    /\ Forall2 (fun a n => exists s, a = AFrame digest n s) (filter (fun a => negb (is_keep digest a)) facks) sent
     /\ send_final digest deq size mine rest = true.
 Proof. exact (send_v2_sound digest deq). Qed.
 
 Theorem C02_sender_final : forall as_ size mine, send_final digest deq size mine as_ = true ->
   exists pre d rest, as_ = pre ++ AFinal digest size :: ADigest digest d :: rest /\ d = mine
-    /\ Forall (fun a => exists s, a = AFinal digest s /\ (s < size)%Z) pre.
+    /\ Forall (fun a => a = AKeep digest \/ exists s, a = AFinal digest s /\ (s < size)%Z) pre.
 Proof. exact (send_final_sound digest deq deq_spec). Qed.
+
+(* sender, protocol 1: success only after every chunk was acknowledged by exactly its length,
+   in order, followed by an echoed digest equal to its own *)
+Theorem C02_sender_sound_v1 : forall sent as_ mine, send_v1 digest deq mine sent as_ = true ->
+  exists d rest, as_ = map (AFinal digest) sent ++ ADigest digest d :: rest /\ d = mine.
+Proof. exact (send_v1_sound digest deq deq_spec). Qed.
 
 (* ------------------------------------------------------------------------------------------
    The whole-transfer receiver (Model/Transfer.v, the machine of C01) under ANY delivered
@@ -111,6 +117,7 @@ Print Assumptions C02_no_silent_v2.
 Print Assumptions C02_no_silent_v1.
 Print Assumptions C02_sender_sound.
 Print Assumptions C02_sender_final.
+Print Assumptions C02_sender_sound_v1.
 Print Assumptions C02_transfer_ghost_transparent.
 Print Assumptions C02_transfer_answer_only_md5.
 Print Assumptions C02_transfer_bridge.
